@@ -183,8 +183,11 @@ func (matrix *DenseFloat64Matrix) SetIdentity() {
   }
 }
 func (matrix *DenseFloat64Matrix) Reset() {
-  for i := 0; i < len(matrix.values); i++ {
-    matrix.values[i] = 0.0
+  // reset only the elements of this view
+  for i := 0; i < matrix.rows; i++ {
+    for j := 0; j < matrix.cols; j++ {
+      matrix.values[matrix.index(i, j)] = 0.0
+    }
   }
 }
 func (matrix *DenseFloat64Matrix) Row(i int) Vector {
